@@ -47,6 +47,10 @@ fn main() {
                 bincase::run_random(seed, count, maxi, &mode, &mut out);
             }
         }
+        "bin-pop" => {
+            let stdin = std::io::stdin();
+            bincase::run_populations(&mut stdin.lock(), &mut out);
+        }
         "export-db" => {
             db::export(rbx_reflection_database::get(), &mut out);
         }
